@@ -48,7 +48,9 @@ const CONS: [(K, usize); 22] = [
     (K::Bin("|"), 2),
 ];
 
-const LEAVES6: [&str; 7] = ["a", "b", "1", "2.5", "'q'", "sqrt()", "'6\" p\u{b0}\tq'"];
+// `percent` has a second spelling in the lexer (`%`, a postfix that binds tighter than any operator):
+// a printer that chooses between spellings by the leaf's name has to get every context right
+const LEAVES6: [&str; 8] = ["a", "b", "1", "2.5", "'q'", "sqrt()", "'6\" p\u{b0}\tq'", "percent"];
 const LEAVES2: [&str; 2] = ["a", "1"];
 
 struct Gen {
@@ -383,7 +385,7 @@ impl Space for C11 {
         Meta {
             id: "C11",
             level: "exploration",
-            rule: "every expression tree with <= 2 operator nodes over 7 leaves (one a quoted name containing a double quote, a degree sign and a tab) (thorough: also <= 3 nodes over 2 leaves) and 22 constructors (11 binary operators, explicit *, |, juxtaposition of 2 and 3, unary + and -, two temperature suffixes, `of`, calls with 0/1/2 arguments) in every operand position; each tree is written fully parenthesised and parsed by rink, giving e0; then Display(e0), the serde form of ExprString (through to_string/from_str, through a Value, from a reader, and from ASCII-escaped JSON), and the ExprReply parts (joined by single spaces) must each parse back to e0 with the whole text consumed. A generated text that parses to an error node is a violation. Third source: calls without arguments of all 20 functions built directly from the AST constructors, alone and in 4 operand positions. Second source: every expression of every entry of definitions.units and currency.units as produced by the definitions parser, also through serde_json for the whole DefEntry. Non-trivial = not excluded (inexact numerals, names that are not plain identifiers, error nodes); distinct by Debug form of e0".into(),
+            rule: "every expression tree with <= 2 operator nodes over 8 leaves (one a quoted name containing a double quote, a degree sign and a tab; one the unit `percent`, which the lexer also spells `%`) (thorough: also <= 3 nodes over 2 leaves) and 22 constructors (11 binary operators, explicit *, |, juxtaposition of 2 and 3, unary + and -, two temperature suffixes, `of`, calls with 0/1/2 arguments) in every operand position; each tree is written fully parenthesised and parsed by rink, giving e0; then Display(e0), the serde form of ExprString (through to_string/from_str, through a Value, from a reader, and from ASCII-escaped JSON), and the ExprReply parts (joined by single spaces) must each parse back to e0 with the whole text consumed. A generated text that parses to an error node is a violation. Third source: calls without arguments of all 20 functions built directly from the AST constructors, alone and in 4 operand positions. Second source: every expression of every entry of definitions.units and currency.units as produced by the definitions parser, also through serde_json for the whole DefEntry. Non-trivial = not excluded (inexact numerals, names that are not plain identifiers, error nodes); distinct by Debug form of e0".into(),
             assumptions: vec![
                 "ExprReply parts are rendered by joining them with single spaces".into(),
                 "trees whose constants print inexactly (recurring/approx.) or whose names are not plain identifiers of the query language are outside the statement and are skipped and counted".into(),
